@@ -4,7 +4,7 @@ from __future__ import annotations
 import z3
 
 from . import decl
-from .core import (key_sort, key_term, BOOL, INT, NUM, STR, Heap, State, TDict, TInt, TList, TMap, TOpaque, TOpt, TRef, TRefLike,
+from .core import (esort, epack, eunpack, key_sort, key_term, BOOL, INT, NUM, STR, Heap, State, TDict, TInt, TList, TMap, TOpaque, TOpt, TRef, TRefLike,
                    TSet, TSetV, TTuple, Unsupported, Val, coerce, fresh_name)
 
 CLASSKEY = "__class__"
@@ -170,22 +170,22 @@ def card_axioms(ksort):
 
 def set_arr(heap: Heap, s: Val):
     t = s.t
-    return z3.Select(heap.get(t.key(), z3.ArraySort(t.e.sort(), z3.BoolSort())), s.v)
+    return z3.Select(heap.get(t.key(), z3.ArraySort(esort(t.e), z3.BoolSort())), s.v)
 
 
 def set_write(heap: Heap, s: Val, arr):
     t = s.t
-    heap.set(t.key(), z3.Store(heap.get(t.key(), z3.ArraySort(t.e.sort(), z3.BoolSort())), s.v, arr))
+    heap.set(t.key(), z3.Store(heap.get(t.key(), z3.ArraySort(esort(t.e), z3.BoolSort())), s.v, arr))
 
 
 def list_seq(heap: Heap, l: Val):
     t = l.t
-    return z3.Select(heap.get(t.key(), z3.SeqSort(t.e.sort())), l.v)
+    return z3.Select(heap.get(t.key(), z3.SeqSort(esort(t.e))), l.v)
 
 
 def list_write(heap: Heap, l: Val, seq):
     t = l.t
-    heap.set(t.key(), z3.Store(heap.get(t.key(), z3.SeqSort(t.e.sort())), l.v, seq))
+    heap.set(t.key(), z3.Store(heap.get(t.key(), z3.SeqSort(esort(t.e))), l.v, seq))
 
 
 # ------------------------------------------------------------------ havoc of objects (loop cuts and calls)
@@ -220,9 +220,9 @@ def havoc_target(st: State, target):
                 st.pc.append(z3.ForAll([k], z3.Implies(z3.Not(z3.Select(dom, k)), z3.Select(a, k) == dflt)))
             dict_set_contents(heap, c, dom, vals)
         elif isinstance(t, TSet):
-            set_write(heap, c, z3.Const(fresh_name("hv_set"), z3.ArraySort(t.e.sort(), z3.BoolSort())))
+            set_write(heap, c, z3.Const(fresh_name("hv_set"), z3.ArraySort(esort(t.e), z3.BoolSort())))
         elif isinstance(t, TList):
-            list_write(heap, c, z3.Const(fresh_name("hv_list"), z3.SeqSort(t.e.sort())))
+            list_write(heap, c, z3.Const(fresh_name("hv_list"), z3.SeqSort(esort(t.e))))
         else:
             raise Unsupported(f"contents of {t}")
     else:
